@@ -28,10 +28,10 @@ func init() {
 			hs := c.Pick(6, 9)
 			return []mon.Family{
 				{Name: "allpaths-small", N: (1 << uint(hs+1)) - 1, Run: c04Small},
-				{Name: "allpaths-windows", N: c.Pick(20000, 1500000), Run: c04Windows},
-				{Name: "decode", N: c.Pick(12000, 1000000), Run: c04Decode},
+				{Name: "allpaths-windows", Env: 10, N: c.Pick(20000, 1500000), Run: c04Windows},
+				{Name: "decode", Env: 10, N: c.Pick(12000, 1000000), Run: c04Decode},
 				{Name: "decode-huge-bitmap", N: 1, Run: c04DecodeHuge},
-				{Name: "decode-tall", N: c.Pick(6, 60), Run: c04DecodeTall},
+				{Name: "decode-tall", Env: 2, N: c.Pick(6, 60), Run: c04DecodeTall},
 			}
 		},
 	})
